@@ -339,9 +339,11 @@ def check_reorder(ctx, rid: str) -> None:
             r3.check(a is not None and is_name(a, "grid"), "self_to_path receives run()'s own path", runf, c,
                      f"self_to_path is given `{norm1(a) if a is not None else None}` instead of the path being run")
     # self_to_path itself: mapping from coordinates
-    stp = idx.function(TAB, "TABresult.self_to_path")
+    from ..sem import Sem, inline_private_helpers
+    stp = inline_private_helpers(idx, idx.function(TAB, "TABresult.self_to_path"))
     r3.instance(stp.short)
     scfg, sdu, spm = fctx(stp)
+    SS = Sem(idx, stp)
     tp = method_calls(stp.node, "to_path")
     if len(tp) != 1:
         raise AnalysisError("self_to_path: expected one .to_path(mapping) call")
@@ -366,9 +368,15 @@ def check_reorder(ctx, rid: str) -> None:
     own_axis = None
     for e in sl:
         for sub in ast.walk(e):
-            if isinstance(sub, ast.BinOp) and isinstance(sub.op, ast.Sub) and isinstance(sub.left, ast.Subscript) \
-                    and isinstance(sub.right, ast.Subscript):
-                pat = {norm(x.slice).replace(" ", "").strip("()"): x for x in (sub.left, sub.right)}
+            if isinstance(sub, ast.BinOp) and isinstance(sub.op, ast.Sub):
+                try:
+                    at_ = scfg.node(enclosing(spm, sub, ast.stmt))
+                    l_, r_ = (sdu.resolve_local(x, at_) if isinstance(x, ast.Name) else x for x in (sub.left, sub.right))
+                except Exception:
+                    continue
+                if not (isinstance(l_, ast.Subscript) and isinstance(r_, ast.Subscript)):
+                    continue
+                pat = {norm(x.slice).replace(" ", "").strip("()"): x for x in (l_, r_)}
                 if set(pat) == {":,None,:", "None,:,:"}:
                     o0, o1 = origin(pat[":,None,:"].value), origin(pat["None,:,:"].value)
                     if {o0, o1} == {"own", "path"}:
@@ -386,7 +394,7 @@ def check_reorder(ctx, rid: str) -> None:
                          f"gather index — tabulated values are attached to the wrong path points whenever batches complete out of order")
     # results rebuilt for every key + kpoints replaced
     comp = enclosing(spm, tp[0], ast.DictComp)
-    r3.check(comp is not None and norm(comp.generators[0].iter) == "self.results" and not comp.generators[0].ifs,
+    r3.check(comp is not None and norm(comp.generators[0].iter) in ("self.results", "self.results.items()", "self.results.keys()") and not comp.generators[0].ifs,
              "every tabulated quantity is re-ordered", stp, tp[0], "not every entry of self.results is re-ordered")
     kst = [s for s in stmts(stp.node) if isinstance(s, ast.Assign) and norm(s.targets[0]) == "self.kpoints"]
     r3.check(len(kst) == 1 and "kpoints_path" in norm(kst[0].value) or
